@@ -36,7 +36,7 @@ REQ = {
             "counters_prefix_ok": "baseline_ok:"},
 }
 C17_OPS = ["eval", "eval_list", "sample", "delta", "deriv", "insert", "remove", "refine", "split", "decompose", "tangent", "normal",
-           "tessellate", "voxelize", "cadd", "ctess", "cread", "edit_handle", "length", "hodograph", "find_ctrlpts"]
+           "tessellate", "voxelize", "cadd", "ctess", "cread", "edit_handle", "length", "hodograph", "find_ctrlpts", "remove_orig"]
 
 
 def main():
